@@ -241,6 +241,46 @@ def scale_windows(res, ctx, rng, names):
                 return
 
 
+SMALL_ERRNO_RE = re.compile(r'errno: (?:[A-Z0-9_]+\((\d+)\)|(\d+))')
+
+
+def small_starts(res, ctx, rng, names):
+    """Error precedence against the START record: every decoder x every small START pattern (each free argument word 0 or
+    1 - null ports, null pointers, flags of one: the values real calls are full of) x every error number Darwin defines
+    (and 0, and one beyond).  Whatever the arguments, a non-zero error word shows exactly that errno and no success
+    value; a zero one shows none."""
+    import itertools
+    for name in names:
+        spec = domain.TABLE.get(name, {})
+        base = domain.gen_words(rng, name, 'S')
+        parser = ev.new_parser()
+        ts = 1000
+        for pat in itertools.product((0, 1), repeat=4):
+            start = [base[i] if ('S', i) in spec else pat[i] for i in range(4)]
+            if name in ('BSC_setsockopt', 'BSC_getsockopt'):
+                start[2] = base[2]
+            for err in range(0, 108):
+                ts += 14
+                try:
+                    parser.feed(ev.mk(ts, name, 1, start, 6))
+                    t = parser.feed(ev.mk(ts + 7, name, 2, (err, 5, 0, 0), 6))
+                    text = str(t) if t is not None else None
+                except Exception as x:
+                    res.violation(f'c10-raises-{core.exc_name(x)}', f'{name} START {start} error {err}: {x!r}',
+                                  {'name': name, 'start': start, 'end': [err, 5, 0, 0]})
+                    return
+                res.count('small_start_renderings')
+                part = split_result(text)[1] if text else None
+                m = SMALL_ERRNO_RE.search(part or '')
+                shown = int(m.group(1) or m.group(2)) if m else None
+                if text is None or shown != (err or None):
+                    res.violation('c10-error-word-not-shown' if err else 'c10-errno-on-success',
+                                  f'{name}: START {start}, END error word {err}: the line reads {text!r}',
+                                  {'name': name, 'start': start, 'end': [err, 5, 0, 0]})
+                    return
+        res.case(('small-starts', name))
+
+
 def renumbered_tables(res, ctx, rng, names):
     """Two code tables in one process that give ONE event id to two different calls: the bundled one, and a supplied one
     in which two calls have swapped ids (a release that renumbers them).  Calls whose results are formatted in a way of
@@ -377,6 +417,7 @@ def run(ctx):
     mine = [n for i, n in enumerate(inv['bsd']) if ctx.mine(i) and n not in DECLARED_EXCLUSIONS]
     if mine:
         scale_windows(res, ctx, rng, mine)
+        small_starts(res, ctx, rng, mine)
     stream.run_all(res, 'c10', STREAM_CASES, rng, 'result renderings', ctx)
     for _ in range(ctx.pick(2, 8)):
         shared_front_end(res, ctx, rng)
